@@ -1,13 +1,78 @@
 (* C07 — Router: live events reach exactly the open matching subscriptions,
-   once.  Statements only. *)
+   once.  Statements only; each is closed by [exact] of a lemma proved in
+   Router*.v and followed by Print Assumptions.
+
+   The model (Router.v) is a labelled transition system whose atomic steps are
+   the critical sections of safeMap's RWMutex and the channel operations;
+   [run s tr] executes an arbitrary list of labels (a schedule), steps that
+   would have to wait leave the state unchanged.  Every theorem below
+   quantifies over all schedules and any number of connections.
+
+   PARTIAL: that the Go scheduler, sync.RWMutex and channels realise exactly
+   these atomic steps is not proved; it is tied to the source by the extracted
+   lock table and call shapes (C07_structure, C07_lock_discipline) and
+   exercised by the concurrent layer of the correspondence check. *)
 From Moc Require Import Base Match MatchProofs Router RouterProofs.
 From Moc.Gen Require Import GenRouter.
+From Coq Require Import Sorted.
 Open Scope Z_scope.
 
+(** the structure facts the model relies on, as extracted from the source:
+    SendIfMatch calls Match (not LimitMatch) and trySendCtx; trySendCtx has a
+    default clause; recv subscribes before it answers EOSE and publishes
+    before it answers OK; ServeNostr defers UnsubscribeAll; the queue has
+    capacity buflen; Publish is a loop in a loop; the lock table *)
 Theorem C07_structure : model_applicable = true.
 Proof. exact model_applicable_true. Qed.
 Print Assumptions C07_structure.
 
+(** every method of safeMap defers the unlock matching the lock it takes at
+    entry, and every method that writes the map takes the exclusive lock:
+    each step of the model is atomic with respect to the others on that map *)
+Theorem C07_lock_discipline :
+  forall name excl deferred writes,
+    In (name, (excl, deferred, writes)) g_safemap_locks ->
+    deferred = true /\ (writes = true -> excl = true).
+Proof. exact safemap_lock_discipline. Qed.
+Print Assumptions C07_lock_discipline.
+
+Theorem C07_buflen_guard : forall b, g_router_buflen_bad b = true <-> b <= 0.
+Proof. exact g_router_buflen_bad_spec. Qed.
+
+(** the model's test is the NIP-01 predicate of C02 *)
+Theorem C07_match_is_nip01 : forall e fs,
+  tags_nonempty e -> Forall filter_wf fs -> sub_matches e fs = matches_specb e fs.
+Proof. exact sub_matches_spec. Qed.
+Print Assumptions C07_match_is_nip01.
+
+(* ------------------------------------------------------------------ *)
+(** One visit: with room, exactly one copy per matching open subscription of
+    the visited connection, labelled with its id, none otherwise. *)
+Theorem C07_visit_exact : forall buf e t m q,
+  NoDup (List.map fst m) -> (length q + length (matching_subs e m) <= buf)%nat ->
+  exists new, visit_loop buf e t m q = q ++ new /\
+    (forall sub, count_occ_b (is_copy sub t) new =
+       match assoc sub m with Some fs => if sub_matches e fs then 1%nat else 0%nat | None => 0%nat end) /\
+    Forall (fun msg => exists sub, msg = MEvent sub e t) new.
+Proof. exact visit_exact. Qed.
+Print Assumptions C07_visit_exact.
+
+(** [visit_loop] is what the transition system does in an uninterrupted visit *)
+Theorem C07_visit_is_model : forall e t x todo s c rest,
+  c_pc (r_cs s c) = IVisit e t x todo :: rest ->
+  let s' := run s (repeat (LRun c) (length todo)) in
+  c_q (r_cs s' x) = visit_loop (r_buf s) e t todo (c_q (r_cs s x)) /\
+  c_pc (r_cs s' c) = IVisit e t x [] :: rest.
+Proof. exact visit_uninterrupted. Qed.
+
+(* ------------------------------------------------------------------ *)
+(** MUST.  If subscription (x, sub, fs) is established (registered, nothing
+    pending that touches it, session alive) when publication (p, n) of e
+    begins, no CLOSE / REQ with the same id / disconnect of x is accepted
+    during the schedule tr, the filters match and the publication is over at
+    the end of tr (its OK has been handed over), then x has the copy — in its
+    output, in the forwarder's hand or in its queue — or the copy is in x's
+    drop log (see C07_drop_only_when_full). *)
 Theorem C07_deliver_must : forall s tr p x sub fs e n,
   established s x sub fs ->
   (exists rest, c_pc (r_cs s p) = IPubBegin e :: rest) -> c_ctr (r_cs s p) = n ->
@@ -17,3 +82,235 @@ Theorem C07_deliver_must : forall s tr p x sub fs e n,
   got_st (r_cs (run s tr) x) sub e (p, n).
 Proof. exact deliver_must. Qed.
 Print Assumptions C07_deliver_must.
+
+(** "the REQ ended": when the EOSE is handed to the client the subscription
+    is established with the filters of that REQ *)
+Theorem C07_req_end_established : forall buf s x sub,
+  reachable buf s -> c_pc (r_cs s x) = [IEose sub] ->
+  exists fs ops0,
+    c_ops (r_cs s x) = ops0 ++ [OReq sub fs] /\
+    established (step s (LRun x)) x sub fs /\
+    c_out (r_cs (step s (LRun x)) x) = c_out (r_cs s x) ++ [MEose sub].
+Proof. exact req_end_established. Qed.
+Print Assumptions C07_req_end_established.
+
+(** it stays established until the client ends it *)
+Theorem C07_established_stable : forall s tr x sub fs,
+  established s x sub fs -> Forall (fun l => ends_sub x sub l = false) tr -> established (run s tr) x sub fs.
+Proof. exact established_run. Qed.
+
+(** a client that reads receives everything that is in its flow *)
+Theorem C07_reader_gets_flow : forall s x,
+  c_dead (r_cs s x) = false ->
+  exists tr, Forall (reader_label x) tr /\ c_out (r_cs (run s tr) x) = flow (r_cs s x).
+Proof. exact drain. Qed.
+Print Assumptions C07_reader_gets_flow.
+
+(* ------------------------------------------------------------------ *)
+(** MUST NOT, four clauses. *)
+
+(** does not match / foreign label: a received live event carries the id of a
+    REQ of this very connection whose filters match it *)
+Theorem C07_deliver_must_not : forall buf s x sub e t,
+  reachable buf s -> In (MEvent sub e t) (c_out (r_cs s x)) ->
+  exists fs, In (OReq sub fs) (c_ops (r_cs s x)) /\ sub_matches e fs = true.
+Proof. exact must_not_unjustified. Qed.
+Print Assumptions C07_deliver_must_not.
+
+(** closed or replaced before / never subscribed: while x has no subscription
+    sub and no REQ for it is accepted, no copy labelled sub is produced for x *)
+Theorem C07_deliver_must_not_closed : forall buf s tr x sub t,
+  reachable buf s -> unsubscribed s x sub ->
+  Forall (fun l => is_req_of x sub l = false) tr ->
+  (total (r_cs (run s tr) x) sub t <= total (r_cs s x) sub t)%nat /\ unsubscribed (run s tr) x sub.
+Proof. exact must_not_unsubscribed. Qed.
+Print Assumptions C07_deliver_must_not_closed.
+
+(** created after the OK: once a publication is over no further copy of it is
+    produced, for any connection and subscription id, under any schedule *)
+Theorem C07_deliver_must_not_after_ok : forall buf s tr p n x sub,
+  reachable buf s -> pub_done s p n ->
+  (total (r_cs (run s tr) x) sub (p, n) <= total (r_cs s x) sub (p, n))%nat /\ pub_done (run s tr) p n.
+Proof. exact must_not_after_ok. Qed.
+Print Assumptions C07_deliver_must_not_after_ok.
+
+(** finished connection: after the end of a session nothing is sent to it or
+    queued for it, whatever happens afterwards *)
+Theorem C07_deliver_must_not_finished : forall buf s tr x,
+  reachable buf s -> finished s x ->
+  c_out (r_cs (run s tr) x) = c_out (r_cs s x) /\ c_q (r_cs (run s tr) x) = [] /\ c_hand (r_cs (run s tr) x) = None.
+Proof. exact must_not_finished. Qed.
+Print Assumptions C07_deliver_must_not_finished.
+
+Theorem C07_disconnect_finishes : forall buf s x,
+  reachable buf s -> c_pc (r_cs s x) = [IUnsubAll] -> r_pubs s = [] ->
+  finished (step s (LRun x)) x /\ reg_get x (r_reg (step s (LRun x))) = None.
+Proof. exact disconnect_finishes. Qed.
+
+(* ------------------------------------------------------------------ *)
+(** AT MOST ONCE: per connection, subscription id and publication, at most one
+    copy is received or dropped (never both), in every reachable state. *)
+Theorem C07_deliver_at_most_once : forall buf s x sub t,
+  reachable buf s ->
+  (count_occ_b (is_copy sub t) (c_out (r_cs s x)) + count_occ_b (is_drop sub t) (c_drops (r_cs s x)) <= 1)%nat.
+Proof. exact deliver_at_most_once. Qed.
+Print Assumptions C07_deliver_at_most_once.
+
+(** ORDER: what a connection has received from publisher p is sorted by p's
+    publication numbers, which are issued in p's program order. *)
+Theorem C07_publisher_order_preserved : forall buf s x p,
+  reachable buf s -> StronglySorted le (pub_seq p (c_out (r_cs s x))).
+Proof. exact publisher_order_preserved. Qed.
+Print Assumptions C07_publisher_order_preserved.
+
+Theorem C07_publication_numbers : forall s c e rest,
+  c_pc (r_cs s c) = IPubBegin e :: rest ->
+  c_pc (r_cs (step s (LRun c)) c) = IPub e (c, c_ctr (r_cs s c)) (List.map fst (r_reg s)) :: rest /\
+  c_ctr (r_cs (step s (LRun c)) c) = S (c_ctr (r_cs s c)).
+Proof. exact pub_numbers_in_program_order. Qed.
+
+(** DROPS: a copy enters the drop log only in a SendIfMatch step that finds the
+    connection's own queue holding exactly buflen messages; the queue never
+    holds more. *)
+Theorem C07_drop_only_when_full : forall buf s l x d,
+  reachable buf s ->
+  In d (c_drops (r_cs (step s l) x)) -> ~ In d (c_drops (r_cs s x)) ->
+  length (c_q (r_cs s x)) = buf /\ c_q (r_cs (step s l) x) = c_q (r_cs s x) /\
+  exists c e t sub fs todo rest,
+    l = LRun c /\ c_pc (r_cs s c) = IVisit e t x ((sub, fs) :: todo) :: rest /\ d = (sub, e, t) /\ sub_matches e fs = true.
+Proof. exact drop_only_when_full. Qed.
+Print Assumptions C07_drop_only_when_full.
+
+Theorem C07_queue_bounded : forall buf s x, reachable buf s -> (length (c_q (r_cs s x)) <= buf)%nat.
+Proof. exact queue_bounded. Qed.
+
+(** REPLIES: the replies a connection has received, followed by those still
+    pending in its program, are exactly the replies of its accepted
+    operations in order: one EOSE per REQ, one OK with the event's id per
+    EVENT, one COUNT per COUNT. *)
+Theorem C07_replies_exact : forall buf s x,
+  reachable buf s ->
+  replies (c_out (r_cs s x)) ++ pending_replies (c_pc (r_cs s x)) = expected_replies (c_ops (r_cs s x)).
+Proof. exact replies_prefix. Qed.
+Print Assumptions C07_replies_exact.
+
+Theorem C07_replies_exact_idle : forall buf s x,
+  reachable buf s -> c_pc (r_cs s x) = [] ->
+  replies (c_out (r_cs s x)) = expected_replies (c_ops (r_cs s x)).
+Proof. exact replies_exact. Qed.
+
+(** NEVER BLOCKED: every step of a publishing connection is enabled in every
+    state (no rule has a premise on anybody's queue), it makes progress, other
+    connections cannot undo it, and enabledness does not depend on queues,
+    forwarder slots or outputs at all. *)
+Theorem C07_publisher_never_blocked : forall s c,
+  publishing (c_pc (r_cs s c)) = true ->
+  enabled s (LRun c) = true /\ c_pc (r_cs (step s (LRun c)) c) <> c_pc (r_cs s c).
+Proof. intros s c H. split; [now apply publisher_never_blocked | now apply publisher_step_progress]. Qed.
+Print Assumptions C07_publisher_never_blocked.
+
+Theorem C07_publisher_not_interfered : forall s l c,
+  label_of_conn c l = false -> c_pc (r_cs (step s l) c) = c_pc (r_cs s c).
+Proof. exact publisher_not_interfered. Qed.
+
+Theorem C07_enabled_ignores_queues : forall s1 s2 l,
+  r_pubs s1 = r_pubs s2 ->
+  (forall c, c_pc (r_cs s1 c) = c_pc (r_cs s2 c) /\ c_rd (r_cs s1 c) = c_rd (r_cs s2 c)) ->
+  enabled s1 l = enabled s2 l.
+Proof. exact enabled_ignores_queues. Qed.
+Print Assumptions C07_enabled_ignores_queues.
+
+(** ... and more: the whole control part of the router (programs, accepted
+    operations, registry, lock holders) under a given schedule is the same
+    whatever is queued, held or sent anywhere and whatever buflen is.  A
+    stalled subscriber therefore cannot delay, reorder or change any step of
+    any publisher. *)
+Theorem C07_control_independent_of_queues : forall s1 s2 tr c,
+  sim s1 s2 ->
+  c_pc (r_cs (run s1 tr) c) = c_pc (r_cs (run s2 tr) c) /\
+  c_ops (r_cs (run s1 tr) c) = c_ops (r_cs (run s2 tr) c) /\
+  r_reg (run s1 tr) = r_reg (run s2 tr).
+Proof. exact control_independent_of_queues. Qed.
+Print Assumptions C07_control_independent_of_queues.
+
+(* ------------------------------------------------------------------ *)
+(** Non-vacuity: concrete schedules on which the hypotheses hold. *)
+
+Definition c0 : conn := 0%nat.
+Definition c1 : conn := 1%nat.
+Definition c2 : conn := 2%nat.
+Definition ex_a : str := [97]%N.
+Definition ex_b : str := [98]%N.
+Definition ex_e (id : N) : event := mkEvent [id] [112]%N 5 1 [[116; 120]%N :: [[118]%N]] [] [].
+
+(** connection 1 subscribes "a" with the empty filter and "b" with a filter
+    on another author; connection 0 gets ready to publish *)
+Definition ex_s0 : rstate :=
+  run (r_init 1%nat)
+      [LOp c1 (OReq ex_a [empty_filter]); LRun c1; LRun c1; LRun c1;
+       LOp c1 (OReq ex_b [mkFilter None (Some [[113]%N]) None None None None None]); LRun c1; LRun c1;
+       LOp c0 (OEvent (ex_e 49))].
+
+Definition ex_tr : list label := [LRun c0; LVisit c0 c1 [ex_b; ex_a]; LRun c0; LRun c0; LRun c0; LRun c0; LRun c0].
+
+Example C07_ex_must_hypotheses :
+  established ex_s0 1%nat ex_a [empty_filter] /\
+  (exists rest, c_pc (r_cs ex_s0 0%nat) = IPubBegin (ex_e 49) :: rest) /\
+  c_ctr (r_cs ex_s0 0%nat) = 0%nat /\
+  Forall (fun l => ends_sub 1%nat ex_a l = false) ex_tr /\
+  sub_matches (ex_e 49) [empty_filter] = true /\
+  pub_done (run ex_s0 ex_tr) 0%nat 0%nat /\
+  reachable 1%nat ex_s0.
+Proof.
+  repeat split.
+  - repeat constructor.
+  - eexists. reflexivity.
+  - repeat constructor.
+  - vm_compute. lia.
+  - vm_compute. repeat constructor.
+  - unfold ex_s0. apply reachable_run. constructor.
+Qed.
+
+(** and the conclusion is the copy in the queue: delivered to "a", not to "b" *)
+Example C07_ex_must_result :
+  c_q (r_cs (run ex_s0 ex_tr) 1%nat) = [MEvent ex_a (ex_e 49) (0%nat, 0%nat)] /\
+  c_out (r_cs (run ex_s0 ex_tr) 0%nat) = [MOk [49]%N] /\
+  c_out (r_cs (run ex_s0 ex_tr) 1%nat) = [MEose ex_a; MEose ex_b].
+Proof. vm_compute. repeat split. Qed.
+
+(** a stalled subscriber with buflen 1: the forwarder holds the first copy,
+    the queue the second, the third is dropped — and the publisher got all
+    three OKs *)
+Definition ex_pub (id : N) : list label :=
+  [LOp c0 (OEvent (ex_e id)); LRun c0; LVisit c0 c1 []; LRun c0; LRun c0; LRun c0; LRun c0; LRun c0].
+
+Definition ex_s1 : rstate :=
+  run ex_s0 (ex_tr ++ [LTake c1] ++ ex_pub 50 ++ ex_pub 51).
+
+Example C07_ex_drop :
+  c_hand (r_cs ex_s1 1%nat) = Some (MEvent ex_a (ex_e 49) (0%nat, 0%nat)) /\
+  c_q (r_cs ex_s1 1%nat) = [MEvent ex_a (ex_e 50) (0%nat, 1%nat)] /\
+  c_drops (r_cs ex_s1 1%nat) = [(ex_a, ex_e 51, (0%nat, 2%nat))] /\
+  c_out (r_cs ex_s1 0%nat) = [MOk [49]%N; MOk [50]%N; MOk [51]%N] /\
+  c_pc (r_cs ex_s1 0%nat) = [].
+Proof. vm_compute. repeat split. Qed.
+
+(** disconnect: the queued copy is discarded, the registry entry is gone, and
+    a later publication produces nothing for the finished connection *)
+Definition ex_s2 : rstate := run ex_s1 ([LDeliver c1; LOp c1 ODisc; LRun c1] ++ ex_pub 52).
+
+Example C07_ex_disconnect :
+  finished ex_s2 1%nat /\ reg_get 1%nat (r_reg ex_s2) = None /\
+  c_q (r_cs ex_s2 1%nat) = [] /\
+  c_out (r_cs ex_s2 1%nat) = [MEose ex_a; MEose ex_b; MEvent ex_a (ex_e 49) (0%nat, 0%nat)] /\
+  c_out (r_cs ex_s2 0%nat) = [MOk [49]%N; MOk [50]%N; MOk [51]%N; MOk [52]%N].
+Proof. vm_compute. repeat split. Qed.
+
+(** a writer of the outer map waits while a publish holds the read lock: the
+    first REQ of a new connection does not get past IRegAdd until the
+    publisher has left the loop *)
+Example C07_ex_new_connection_waits :
+  let s := run ex_s0 [LRun c0; LOp c2 (OReq ex_a [empty_filter]); LRun c2; LRun c2] in
+  c_pc (r_cs s 2%nat) = [IRegAdd; ISubAdd ex_a [empty_filter]; IEose ex_a] /\ enabled s (LRun c2) = false /\
+  enabled s (LRun c0) = true.
+Proof. vm_compute. repeat split. Qed.
